@@ -33,7 +33,8 @@ Note(names) ==
 
 Init == l = 1 /\ viol = {} /\ cnt = <<>>
         /\ stat = [scripted |-> 0, real |-> 0, calls |-> 0, full |-> 0, looping |-> 0, boundary |-> 0,
-                   bumped |-> 0, none |-> 0, hang |-> 0, clauses |-> 0, roundup |-> 0, onb_starts |-> 0]
+                   bumped |-> 0, none |-> 0, hang |-> 0, clauses |-> 0, roundup |-> 0, onb_starts |-> 0,
+                   bumpout |-> 0]
 
 Responses(calls, kind) ==
   LET sel == SelectSeq(calls, LAMBDA c : c[1] = kind) IN
@@ -82,9 +83,12 @@ TScripted ==
              \cup (IF Rec.hang THEN {"C08.Terminates"} ELSE {})
              \cup (IF Rec.exc # "" THEN {"C08.Abort"} ELSE {})
              \cup (IF self THEN {} ELSE {"SPEC.DerivedFacts"})
+             \* the committed momentum belongs (within tolerance) to the point where the particle is put
+             \cup (IF ~bad /\ exp.complete /\ exp.L.mgap > MaxOf(P.minsub, 2 * P.delta)
+                     THEN {"C08.MomentumAtEndPoint"} ELSE {})
              \cup api)
      /\ stat' = [stat EXCEPT !.scripted = @ + 1, !.calls = @ + Len(Rec.calls), ![oc] = @ + 1,
-                             !.hang = @ + (IF Rec.hang THEN 1 ELSE 0), !.clauses = @ + 8,
+                             !.hang = @ + (IF Rec.hang THEN 1 ELSE 0), !.clauses = @ + 9,
                              !.roundup = @ + (IF ~bad /\ exp.complete /\ exp.res.roundup THEN 1 ELSE 0),
                              !.onb_starts = @ + (IF P.onb0 THEN 1 ELSE 0)]
 
@@ -105,26 +109,41 @@ TReal ==
                   /\ \A i \in DOMAIN adv : k.zero < adv[i][3] /\ adv[i][3] <= adv[i][2]
            \* inside the original volume unless a boundary was reported (tracked state and,
            \* Oracle, a fresh point location at the end point)
-           volok == oc = "boundary" \/ (~Rec.out1 /\ Rec.vol1 = Rec.vol0 /\ Rec.volf = Rec.vol0)
+           \* (after a zero-progress bump only the tracked state is compared: the bump is a blind
+           \* move of bump_distance and the property makes no promise about it; `bumpout` counts
+           \* the bumps after which the fresh location disagrees)
+           volok == \/ oc = "boundary"
+                    \/ ~Rec.out1 /\ Rec.vol1 = Rec.vol0 /\ (oc = "bumped" \/ Rec.volf = Rec.vol0)
            momok == orc.unit_res <= orc.unit_tol /\ k.p1 = k.p0 /\ orc.pdrift <= orc.pdrift_tol
+           \* the last iteration committed a boundary: the momentum taken from the end of that
+           \* substep belongs (within tolerance) to the point where the particle was put
+           momat == ~(Rec.lastb /\ CommittedToken(calls, Rec.onb0, k.bump) = Len(Finds(calls))) \/ k.mgap <= k.mgaptol
        IN
        /\ Note(api
                \cup (IF drv THEN {} ELSE {"C08.DriverContract"})
-               \cup (IF volok THEN {} ELSE {"C08.VolumeUnchanged"})
+               \* (clauses that depend on the integrated trajectory carry the stepper's name)
+               \cup (IF volok THEN {} ELSE {"C08.VolumeUnchanged@" \o Rec.stepper})
                \cup (IF momok THEN {} ELSE {"C08.Oracle.MomentumMagnitude"})
-               \cup (IF orc.helix => orc.hres <= orc.htol THEN {} ELSE {"C08.Oracle.HelixPosition"})
-               \cup (IF orc.helix => orc.ares <= orc.atol THEN {} ELSE {"C08.Oracle.HelixDirection"})
+               \cup (IF orc.helix => orc.hres <= orc.htol THEN {} ELSE {"C08.Oracle.HelixPosition@" \o Rec.stepper})
+               \cup (IF momat THEN {} ELSE {"C08.MomentumAtEndPoint"})
+               \* (when the momentum was taken from a distant point the direction oracle has nothing to add)
+               \cup (IF (orc.helix /\ momat) => orc.ares <= orc.atol THEN {} ELSE {"C08.Oracle.HelixDirection@" \o Rec.stepper})
                \cup (IF oc = "full" => k.gap <= k.tolgap THEN {} ELSE {"C08.RoundUpBounded"})
                \* contract edges: assertions of the code itself that only a debug build evaluates
                \cup (IF oc = "full" => k.gap <= k.softtol THEN {} ELSE {"C08.Edge.RoundUpNotSoftEqual"})
                \cup (IF oc = "boundary" => res.dist <= k.step THEN {} ELSE {"C08.Edge.BoundaryBeyondStep"}))
-       /\ stat' = [stat EXCEPT !.real = @ + 1, !.calls = @ + Len(calls), ![oc] = @ + 1, !.clauses = @ + 15,
+       /\ stat' = [stat EXCEPT !.real = @ + 1, !.calls = @ + Len(calls), ![oc] = @ + 1, !.clauses = @ + 16,
                                !.roundup = @ + (IF oc = "full" /\ k.gap > k.zero THEN 1 ELSE 0),
-                               !.onb_starts = @ + (IF Rec.onb0 THEN 1 ELSE 0)]
+                               !.onb_starts = @ + (IF Rec.onb0 THEN 1 ELSE 0),
+                               !.bumpout = @ + (IF oc = "bumped" /\ Rec.volf # Rec.vol0 THEN 1 ELSE 0)]
 
 TInfo == Rec.e \in {"Info", "Close"} /\ UNCHANGED <<viol, cnt, stat>>
+\* the harness process itself had to be killed (written by the check, not by the harness)
+THang == /\ Rec.e = "Hang"
+         /\ cnt' = Inc(cnt, "C08.Terminates") /\ viol' = viol \cup {<<"C08.Terminates", 0, l>>}
+         /\ stat' = [stat EXCEPT !.hang = @ + 1]
 
-Next == l <= N /\ l' = l + 1 /\ (TScripted \/ TReal \/ TInfo)
+Next == l <= N /\ l' = l + 1 /\ (TScripted \/ TReal \/ TInfo \/ THang)
 Spec == Init /\ [][Next]_vars
 
 Accepted ==
